@@ -2,6 +2,7 @@ import Pk.Parse
 import Pk.Inst
 import Pk.Lift
 import Pk.Predict
+import Pk.Score
 /-! Line-protocol driver for the Mathlib-free model: one request per line on stdin, one reply per
 line on stdout.  The harness (`/verif/harness`) sends the same cases to the real pykoop and diffs. -/
 open Pk
@@ -115,6 +116,74 @@ def cmdTraj : P String := do
     | .error _ => pure "err ValueError"
     | .ok Y => pure ("ok " ++ showMat toString Y)
 
+def pRat : P Rat := do
+  let t ← tok
+  match t.splitOn "/" with
+  | [a] => match a.toInt? with
+    | some n => pure (n : Rat)
+    | none => throw s!"rat expected: {t}"
+  | [a, b] => match a.toInt?, b.toNat? with
+    | some n, some d => pure ((n : Rat) / (d : Rat))
+    | _, _ => throw s!"rat expected: {t}"
+  | _ => throw s!"rat expected: {t}"
+
+def showRat (r : Rat) : String := if r.den == 1 then toString r.num else s!"{r.num}/{r.den}"
+
+def pOptNat : P (Option Nat) := do
+  let t ← tok
+  if t == "n" then pure none else
+    match t.toNat? with
+    | some n => pure (some n)
+    | none => throw s!"nat or n expected: {t}"
+
+def pErrScore : P ErrScore := do
+  let t ← tok
+  match t with
+  | "raise" => pure .raise
+  | "nan" => pure .nan
+  | "-inf" => pure .negInf
+  | _ => match (pRat.run [t]) with
+    | .ok (r, _) => pure (.val r)
+    | .error e => throw e
+
+def pMetric : P Metric := do
+  let t ← tok
+  match t with
+  | "mse" => pure .mse
+  | "mae" => pure .mae
+  | _ => throw s!"metric expected: {t}"
+
+def showScore : ScoreOut → String
+  | .val r => "val " ++ showRat r
+  | .nan => "nan"
+  | .negInf => "-inf"
+  | .valueError => "err ValueError"
+
+/-- `weights <nsteps|n> <gamma> <mat>` -/
+def cmdWeights : P String := do
+  let ns ← pOptNat; let g ← pRat
+  let X ← pMat pRat
+  pure ("ok " ++ " ".intercalate ((weightsOf ns g X).map showRat))
+
+/-- `score <metric> <finite 0|1> <error_score> <nsteps|n> <gamma> <min_samples> <mat P> <mat E>` -/
+def cmdScore : P String := do
+  let m ← pMetric; let fin ← pBool; let es ← pErrScore; let ns ← pOptNat; let g ← pRat; let ms ← pNat
+  let Pm ← pMat pRat
+  let E ← pMat pRat
+  pure (showScore (scoreTrajectory fin m es ns g ms Pm E))
+
+/-- `scorer <multistep> <relift> <metric> <error_score> <nsteps|n> <gamma> nx nu <stage> <K> <mat>` -/
+def cmdScorer : P String := do
+  let multi ← pBool; let relift ← pBool
+  let m ← pMetric; let es ← pErrScore; let ns ← pOptNat; let g ← pRat
+  let nx ← pNat; let nu ← pNat
+  let s ← pStage
+  let Ki ← pKoop
+  let X ← pMat pRat
+  withFit nx nu s fun _ => do
+    let p : Pipe Rat Kind := ⟨s, (nx, nu), Ki.map (·.map fun (v : Int) => (v : Rat))⟩
+    pure (showScore (scorer (rowFn ratOps) p multi relift m es ns g X))
+
 def intCells : Cells Int := ⟨0, Int.toNat, Int.ofNat⟩
 
 def pRaw : P (Raw Int) := do
@@ -170,6 +239,9 @@ def dispatch : P String := do
   | "regargs" => cmdRegArgs
   | "predict" => cmdPredict
   | "traj" => cmdTraj
+  | "weights" => cmdWeights
+  | "score" => cmdScore
+  | "scorer" => cmdScorer
   | _ => throw s!"bad command {cmd}"
 
 def handle (line : String) : String :=
